@@ -36,6 +36,28 @@ def diff_chooser(ref_ch):
     return DiffChooser(ref_ch.choices(), tuple((e[0], e[1]) for e in ref_ch.log))
 
 
+def run_world(full, entry, ch):
+    """One call in a fresh World.  With ``real_executor`` real time is the one thing the harness
+    does not own: an execution in which it ran away (an attempt that does not overrun in the model
+    was timed out by a loaded machine, or a parked thread was lost) is repeated, and given up as
+    inconclusive - never judged - after three repeats.  Returns (world, judge?)."""
+    w = seq.World(full, ch)
+    w.call(entry)
+    if not full["real_executor"]:
+        return w, True
+    for _ in range(3):
+        if not w.inconclusive:
+            return w, True
+        ch2 = Chooser(ch.prefix, ch.meta)
+        w = seq.World(full, ch2)
+        w.call(entry)
+        ch.pos, ch.log = ch2.pos, ch2.log
+    if w.inconclusive:
+        w.trace.append(("inconclusive",))
+        return w, False
+    return w, True
+
+
 def new_result():
     return {
         "execs": 0,
@@ -249,5 +271,5 @@ def nest_tasks(entries, family, alpha, bound=1, **extra):
     return out
 
 
-__all__ = ["nest_tasks", "Divergence", "DiffChooser", "ReplayMismatch", "diff_chooser", "explore_task",
+__all__ = ["run_world", "nest_tasks", "Divergence", "DiffChooser", "ReplayMismatch", "diff_chooser", "explore_task",
            "merge", "new_result", "jsonable", "outcome_sig", "replay_hash", "seq"]
